@@ -2,6 +2,7 @@ package c09
 
 import (
 	"fmt"
+	"google.golang.org/protobuf/encoding/protojson"
 	"strings"
 
 	"google.golang.org/protobuf/reflect/protoreflect"
@@ -605,6 +606,48 @@ func spellingCases(yield func(*jcase) bool) {
 		// integer literals within int64 (delivered to the converter as integers) that need more than 24 / 53 bits
 		{"16777217", 16777217}, {"4294967297", 4294967297}, {"9007199254740993", 9007199254740992}, {"-9007199254740993", -9007199254740992}, {"999999999999999999", 1e18}, {"-9223372036854775808", -9223372036854775808}} {
 		if !yield(mkcase("double member spelled "+ns.lit, "double-literal", strings.Join(tokens(pj.QuoteJSON, ns.lit), ""), ns.v)) {
+			return
+		}
+	}
+}
+
+// ---- a conforming document converted right after a failing one -------------------------------------------------
+//
+// The statement holds for every conforming document whatever was converted before it. The converter keeps a
+// pooled visitor (stack, pending field, skip flag): every failing document of the menu (failure at depth 0..2,
+// with a member pending / inside a list / inside a map / while skipping an unknown member / by truncation at
+// every such place) is followed by every conforming document of a second menu, same converter, same process.
+
+var failingDocs = []string{
+	`{"ms":1}`, `{"i32":"x"}`, `{"li":5}`, `{"mp":5}`, `{"lm":[1]}`, `{"mm":{"k":1}}`, `{"st":1}`, `{"en":"NOPE"}`,
+	`{"ms":{"iv":"x"}}`, `{"lm":[{"iv":1},{"iv":"x"}]}`, `{"mm":{"k":{"iv":"x"}}}`, `{"mp":{"k":"x"}}`, `{"li":[1,"x"]}`,
+	`{"ms":`, `{"zzz":`, `{"i32"`, `{`, `{"ms":{"iv":`, `{"ms":{`, `{"lm":[{"iv":1},`, `{"lm":[`, `{"mp":{"k":`, `{"mp":{`, `{"li":[1,`,
+	`{"zzz":{"a":[1,{"b":`, `{"zzz":[`, `{"ok_f":7,"zzz":{"ms":`, `{"ms":{"zzz":`, `{"ms":{"zzz":{"q":1},"iv":"x"}}`,
+	`{"ok_f":7,"ms":1}`, `{"ms":{"iv":1},"i32":"x"}`, `{"by":"@@@"}`, `[`, `"x"`, `{"ms":[]}`, `{"lm":{}}`,
+}
+
+var followingDocs = []string{
+	`{}`, `{"ok_f":7}`, `{"ms":{"iv":1}}`, `{"ms":{}}`, `{"li":[1,2]}`, `{"mp":{"a":1}}`, `{"lm":[{"iv":1},{"is_x":"s"}]}`,
+	`{"st":"x","mm":{"k":{"iv":2}}}`, `{"i32":-1,"u64":18446744073709551615,"bo":true,"en":1,"by":"AQI="}`,
+}
+
+func afterFailureCases(yield func(*jcase) bool) {
+	prog := mismatchProgram()
+	for _, f := range failingDocs {
+		f := f
+		jc := &jcase{prog: prog, what: fmt.Sprintf("conforming documents converted right after the failing document %s", f), focus: "after-failure",
+			docs: func(c *pj.Compiled) []doc {
+				var ds []doc
+				for _, v := range followingDocs {
+					want := dynamicpb.NewMessage(c.Ref.Msg(pj.Pkg + ".T"))
+					if err := (protojson.UnmarshalOptions{DiscardUnknown: true}).Unmarshal([]byte(v), want); err != nil {
+						panic("harness: reference JSON parser rejects a following document: " + err.Error())
+					}
+					ds = append(ds, doc{variant: "then " + v, text: []byte(v), want: want, expect: wantOK, prime: []byte(f)})
+				}
+				return ds
+			}}
+		if !yield(jc) {
 			return
 		}
 	}
